@@ -12,7 +12,15 @@ use crate::oracle::xjson;
 #[derive(Clone, Debug, Serialize, Deserialize)]
 pub enum Case {
     Lib(ScriptedCase),
-    Cli { pre: Vec<String>, pos: Vec<String>, unwritable: bool },
+    Cli {
+        pre: Vec<String>,
+        pos: Vec<String>,
+        unwritable: bool,
+        /// how the --outfile path is spelt: 0 plain; 1 a file name that is not UTF-8 (Latin-1
+        /// bytes); 2 a directory that is not UTF-8; 3 Unicode and spaces; 4 a 200-character name
+        #[serde(default)]
+        path_style: u8,
+    },
     /// the binary run with one system call on its output files made to fail
     Fault { argv: Vec<String>, syscall: String, errno: String, when: u32 },
 }
@@ -319,14 +327,35 @@ pub fn gen_lib<R: Rng>(rng: &mut R, big: bool) -> ScriptedCase {
 
 // ---------------------------------------------------------------------------------------
 
-pub fn check_cli(ctx_cli: &std::path::Path, tag: &str, pre: &[String], pos: &[String], unwritable: bool, st: &mut Stats) {
+pub fn check_cli(ctx_cli: &std::path::Path, tag: &str, pre: &[String], pos: &[String], unwritable: bool, path_style: u8, st: &mut Stats) {
     st.eval();
-    let c = Case::Cli { pre: pre.to_vec(), pos: pos.to_vec(), unwritable };
+    let c = Case::Cli { pre: pre.to_vec(), pos: pos.to_vec(), unwritable, path_style };
     let pre_s: Vec<&str> = pre.iter().map(|s| s.as_str()).collect();
     let pos_s: Vec<&str> = pos.iter().map(|s| s.as_str()).collect();
     let out = if unwritable {
         let base = std::path::PathBuf::from(format!("{}/.build/scratch/no-such-directory/deeper/out", crate::common::verif_dir()));
         cli::run_with_outfile(ctx_cli, &base, &pre_s, &pos_s, &[("RAYON_NUM_THREADS", "2".to_string())], 300, true)
+    } else if path_style > 0 {
+        // any path the file system accepts is a valid --outfile
+        use std::os::unix::ffi::OsStringExt;
+        let dir = cli::scratch_dir();
+        let pid = std::process::id();
+        let base = match path_style {
+            1 => dir.join(std::ffi::OsString::from_vec([format!("{}-{}-r", tag, pid).as_bytes(), &[0xe9u8][..], b"sultat"].concat())),
+            2 => {
+                let d = dir.join(std::ffi::OsString::from_vec([format!("{}-{}-M", tag, pid).as_bytes(), &[0xfau8][..], b"sica"].concat()));
+                let _ = std::fs::create_dir_all(&d);
+                d.join("out")
+            }
+            3 => dir.join(format!("{}-{} r\u{e9}sultat final \u{2713}", tag, pid)),
+            _ => dir.join(format!("{}-{}-{}", tag, pid, "n".repeat(200))),
+        };
+        st.count(&format!("cli_runs_with_outfile_path_style[{}]", path_style));
+        let o = cli::run_with_outfile(ctx_cli, &base, &pre_s, &pos_s, &[("RAYON_NUM_THREADS", "2".to_string())], 300, true);
+        if path_style == 2 {
+            let _ = std::fs::remove_dir_all(base.parent().unwrap());
+        }
+        o
     } else {
         cli::run(ctx_cli, tag, &pre_s, &pos_s, &[("RAYON_NUM_THREADS", "2".to_string())], 300)
     };
@@ -541,7 +570,7 @@ pub fn cli_grid<R: Rng>(rng: &mut R, n: usize) -> Vec<(Vec<String>, Vec<String>,
 }
 
 pub fn run(ctx: &Ctx) {
-    ctx.set_rule("library: optimise_state on deterministic bowl landscapes (k = 6, optionally with an undefined region) for steps, inner_steps in {0,1,2,3,7,999,1000,1001,2500,(1e5)} incl. non-multiples and inner_steps > steps, temperatures 0..10, all schedule options, convergence in {unset,0,1e-9,1e-5,2e-4,1e-3,3e-3,1e9}; each configuration is run without and with its threshold: no panic, number of proposals (score calls - 2) within [steps - one loop, steps], the convergent run's call log a bit-exact prefix of the full run's, and the exit at exactly the loop the >5-consecutive-slow-loops rule dictates (decided from the scores at loop boundaries of the full run). CLI: the real binary over groups x shapes x potentials x replications {0,1,3} x the same step settings, unwritable output path, polygon --sides 0..3, polygon -p LJ, unknown group, negative steps: exit 0 needs both parseable files, non-zero needs a message, never a panic (status 101, 'panicked at', signal). Fault enumeration: each of the six system calls on the two output files (openat/write/close of .json and .svg) is made to fail in turn with ENOSPC/EIO/EACCES/EINTR (strace injection), same classification. Non-trivial = edge configurations (0, non-multiples, inner > steps), runs with a threshold, every CLI run; distinct by configuration");
+    ctx.set_rule("library: optimise_state on deterministic bowl landscapes (k = 6, optionally with an undefined region) for steps, inner_steps in {0,1,2,3,7,999,1000,1001,2500,(1e5)} incl. non-multiples and inner_steps > steps, temperatures 0..10, all schedule options, convergence in {unset,0,1e-9,1e-5,2e-4,1e-3,3e-3,1e9}; each configuration is run without and with its threshold: no panic, number of proposals (score calls - 2) within [steps - one loop, steps], the convergent run's call log a bit-exact prefix of the full run's, and the exit at exactly the loop the >5-consecutive-slow-loops rule dictates (decided from the scores at loop boundaries of the full run). CLI: the real binary over groups x shapes x potentials x replications {0,1,3} x the same step settings, unwritable output path, output paths that are not UTF-8 (file name, directory), with Unicode and spaces, 200 characters long, polygon --sides 0..3, polygon -p LJ, unknown group, negative steps: exit 0 needs both parseable files, non-zero needs a message, never a panic (status 101, 'panicked at', signal). Fault enumeration: each of the six system calls on the two output files (openat/write/close of .json and .svg) is made to fail in turn with ENOSPC/EIO/EACCES/EINTR (strace injection), same classification. Non-trivial = edge configurations (0, non-multiples, inner > steps), runs with a threshold, every CLI run; distinct by configuration");
     let n_lib = ctx.tier.pick(50u64, 1_500u64);
     let big = ctx.tier == Tier::Thorough;
     enable_discarding_logger();
@@ -563,7 +592,8 @@ pub fn run(ctx: &Ctx) {
             .enumerate()
             .map(|(i, (pre, pos, unw))| {
                 let mut st = Stats::new();
-                check_cli(&exe, &format!("c20-{}-{}", seed, i), pre, pos, *unw, &mut st);
+                let style = if *unw { 0 } else { [0u8, 0, 0, 0, 1, 2, 3, 4][i % 8] };
+                check_cli(&exe, &format!("c20-{}-{}", seed, i), pre, pos, *unw, style, &mut st);
                 st
             })
             .collect();
@@ -585,9 +615,9 @@ pub fn replay(ctx: &Ctx, case: &Value) {
     let mut st = Stats::new();
     match serde_json::from_value::<Case>(case.clone()) {
         Ok(Case::Lib(sc)) => check_lib(&sc, &mut st),
-        Ok(Case::Cli { pre, pos, unwritable }) => {
+        Ok(Case::Cli { pre, pos, unwritable, path_style }) => {
             if let Some(exe) = ctx.args.cli.clone() {
-                check_cli(&exe, "c20-replay", &pre, &pos, unwritable, &mut st)
+                check_cli(&exe, "c20-replay", &pre, &pos, unwritable, path_style, &mut st)
             }
         }
         Ok(Case::Fault { argv, syscall, errno, when }) => {
